@@ -952,3 +952,53 @@ func fxTableProducer(P *ir.Program, fv ssa.Value, depth int) *ssa.Function {
 	}
 	return nil
 }
+
+// fxHelperLeaves expands v through phis and through the result tuple of a
+// private (unexported) static in-repo helper: result #i of a call stands for
+// the helper's i-th return operand on every return (depth ≤ 2). Calls of
+// exported functions (DefaultKeyCompare, DefaultLayer, …) stay leaves.
+func fxHelperLeaves(v ssa.Value, depth int) []ssa.Value {
+	var out []ssa.Value
+	for _, l := range (&fxAssume{}).leaves(v, nil) {
+		if call, idx := fxCallOf(l); call != nil && depth < 2 {
+			callee := ir.Callee(call.Call)
+			if callee != nil && callee.Blocks != nil && callee.Pkg != nil && callee.Pkg.Pkg.Path() == ir.MastPath &&
+				callee.Object() != nil && !callee.Object().Exported() && callee.Signature.Recv() == nil {
+				n := 0
+				for _, r := range ir.Returns(callee) {
+					if idx < len(r.Results) {
+						n++
+						out = append(out, fxHelperLeaves(r.Results[idx], depth+1)...)
+					}
+				}
+				if n > 0 {
+					continue
+				}
+			}
+		}
+		out = append(out, l)
+	}
+	return out
+}
+
+// fxIsHelperResult: x (a value inside helper h) is what h returns as result
+// #idx on every return, where v = result #idx of a call of h.
+func fxIsHelperResult(x, v ssa.Value) bool {
+	call, idx := fxCallOf(v)
+	if call == nil {
+		return false
+	}
+	callee := ir.Callee(call.Call)
+	ins, ok := x.(ssa.Instruction)
+	if callee == nil || callee.Blocks == nil || !ok || ins.Parent() != callee {
+		return false
+	}
+	n := 0
+	for _, r := range ir.Returns(callee) {
+		if idx >= len(r.Results) || fxStripNoConv(r.Results[idx]) != fxStripNoConv(x) {
+			return false
+		}
+		n++
+	}
+	return n > 0
+}
